@@ -110,7 +110,7 @@ Definition step (dec : decoder) (s : pstate) (line : list N) : outcome :=
             (* if vals == 'VTIMEZONE' and 'TZID' in component: tzp.cache_timezone_component(component) *)
             if str_is vals "VTIMEZONE" && match dict_get (s2l "TZID") (f_props f) with Some _ => true | None => false end
             then match cache s1 with
-                 | [] => Raise (Escape (s2l "oracle-miss"))
+                 | [] => Next s1            (* no recorded outcome left: the call is taken to return normally *)
                  | Ok _ :: c' => Next {| stack := stack s1; done := done s1; cache := c' |}
                  | e :: _ => Raise e
                  end
@@ -223,3 +223,59 @@ Definition tzid_of (ps : params) : option pval := dict_get (s2l "TZID") ps.
 Definition used_tzids (c : comp) : list pval :=
   flat_map (fun it : prop_line => match tzid_of (snd (fst it)) with Some t => [t] | None => [] end)
            (property_items false c).
+
+(* ------------------------------------------------------------------ normal form and guards used by C01 *)
+(* what a serialise-and-parse round trip makes of a tree: properties in emission order, parameters
+   canonical (upper-cased names, sorted when sorting is on), a one-element list entry = a single
+   value, no error list *)
+Definition norm_value (sorted : bool) (v : value) : value :=
+  {| v_class := v_class v; v_params := canon_params (order_params sorted (v_params v)); v_text := v_text v |}.
+Definition norm_entry (sorted : bool) (e : pentry) : pentry :=
+  match map (norm_value sorted) (entry_values e) with
+  | [v] => One v
+  | l => Many l
+  end.
+Definition emit_keys (sorted : bool) (n : list N) (ps : list (list N * pentry)) : list (list N) :=
+  if sorted then canonsort_keys (map fst ps) (canonical_of n) else map fst ps.
+Definition norm_props (sorted : bool) (n : list N) (ps : list (list N * pentry)) : list (list N * pentry) :=
+  flat_map (fun k => match dict_get k ps with Some e => [(k, norm_entry sorted e)] | None => [] end)
+           (emit_keys sorted n ps).
+Fixpoint norm (sorted : bool) (c : comp) : comp :=
+  let '(Comp n ps subs es) := c in Comp n (norm_props sorted n ps) (map (norm sorted) subs) [].
+
+(* one value of property [k] survives the round trip: its line splits back into the same name and
+   parameters (C05 guards), and what Contentline.parts makes of its wire text ([line_value_path]) is
+   decoded to a value with the same wire text (codec stability: C03 / C07 / C19) and the class the name selects *)
+Definition value_ok (dec : decoder) (sorted : bool) (k : list N) (v : value) : bool :=
+  wf_params (v_params v) && head_safe k (v_params v) sorted && params_unesc_safe (v_params v)
+  && no_chr 10 (v_text v)
+  && match class_name_of_key (type_key k) with Some c => str_eqb c (v_class v) | None => false end
+  && match decode_line dec k (canon_params (order_params sorted (v_params v))) (line_value_path (v_text v)) with
+     | Ok [t] => str_eqb t (v_text v)
+     | _ => false
+     end.
+Definition key_ok (k : list N) : bool :=
+  is_token k && str_eqb (upper k) k && negb (str_is k "BEGIN") && negb (str_is k "END").
+Definition nonempty_l {A} (l : list A) : bool := match l with [] => false | _ => true end.
+Definition entry_ok (dec : decoder) (sorted : bool) (kv : list N * pentry) : bool :=
+  key_ok (fst kv) && nonempty_l (entry_values (snd kv))
+  && forallb (value_ok dec sorted (fst kv)) (entry_values (snd kv)).
+(* component names are upper-case tokens; property names are pairwise different *)
+Definition name_ok (n : list N) : bool := is_token n && str_eqb (upper n) n.
+Fixpoint tree_ok (dec : decoder) (sorted : bool) (c : comp) : bool :=
+  let '(Comp n ps subs es) := c in
+  name_ok n && forallb (entry_ok dec sorted) ps && nodup_strs (map fst ps)
+  && forallb (tree_ok dec sorted) subs.
+
+(* parameter names stored upper-case (what CaselessDict guarantees, C17) *)
+Definition params_upper (ps : params) : bool := forallb (fun kv : list N * pval => str_eqb (upper (fst kv)) (fst kv)) ps.
+Fixpoint tree_upper (c : comp) : bool :=
+  let '(Comp n ps subs es) := c in
+  forallb (fun kv : list N * pentry => forallb (fun v => params_upper (v_params v)) (entry_values (snd kv))) ps
+  && forallb tree_upper subs.
+
+(* a concrete decoder for examples: TEXT through the generated escape chains, URI-like kinds unchanged *)
+Definition dec_basic : decoder := fun key v _ =>
+  if str_is key "text" then Ok (escape_char (unescape_char v))
+  else if str_is key "uri" || str_is key "cal-address" || str_is key "inline" then Ok v
+  else Unsup.
